@@ -12,10 +12,12 @@ steps.  Statements that need no arithmetic are proved for *every* scalar type
 statements are over `Rat`.
 
 What is NOT proved here and only exercised by the correspondence: that the
-directions of BFGS / CG / L-BFGS are descent directions for the list-based model
-(`bfgs_update_pd` below is the algebraic core, over abstract bilinear forms);
-the Wolfe and dlinmin line searches (only their contract `LSSound`/`LSNoIncrease`
-appears, as a hypothesis); box-feasibility of the L-BFGS dog-leg; convergence.
+directions of CG and L-BFGS are descent directions (for BFGS it is proved:
+`linesearch_methods_monotone_bfgs`, via `Lemmas/BFGSMatrix.lean` and
+`Lemmas/BFGSList.lean`); the Wolfe and dlinmin line searches (only their
+contracts `LSSound`/`LSNoIncrease`/`LSDim` appear, as hypotheses, and are checked on
+the real code by the harness oracle); box-feasibility of the L-BFGS dog-leg;
+trust-region Newton; convergence.
 -/
 import SharkVerif.Lemmas.GradOpt
 import SharkVerif.Gen.OptFields
